@@ -153,6 +153,12 @@ func (rr *RFC3597) fromRFC3597(r RR) error {
 		return err
 	}
 
-	_, err = r.unpack(msg, 0)
-	return err
+	off, err := r.unpack(msg, 0)
+	if err != nil {
+		return err
+	}
+	if off != len(msg) {
+		return &Error{err: "bad rdlength"}
+	}
+	return nil
 }
